@@ -22,6 +22,52 @@ def main(run):
                            ('QueryElement.__eq__', 'AnyElement.__eq__', 'ListElement.__eq__', 'AnyMetal.__eq__', '_validate')] +
                      [('chython/containers/bonds.py', 'QueryBond.__eq__'), ('chython/containers/bonds.py', 'Bond.__eq__'),
                       ('chython/containers/molecule.py', 'MoleculeContainer.calc_labels')])
+    if want(run, 'T'):
+        # setters of the query API accept exactly the documented ranges and normalise to sorted unique tuples (complete over the small domain)
+        from checks.common import t_oblig
+        from chython.periodictable import QueryElement, AnyElement
+        import itertools
+
+        def outcome(f):
+            try:
+                return ('ok', f())
+            except Exception as e:
+                return ('exc', type(e).__name__)
+
+        def spec_validate(v, lo, hi):
+            if v is None:
+                return ('ok', ())
+            if isinstance(v, bool) or not isinstance(v, (int, tuple, list)):
+                return ('exc', 'TypeError') if not isinstance(v, bool) else None      # bool is an int subclass: not specified
+            if isinstance(v, int):
+                return ('ok', (v,)) if lo <= v <= hi else ('exc', 'ValueError')
+            if not all(isinstance(x, int) for x in v):
+                return ('exc', 'TypeError')
+            if any(x < lo or x > hi for x in v) or len(set(v)) != len(v):
+                return ('exc', 'ValueError')
+            return ('ok', tuple(sorted(v)))
+        values = [None, 'x', 1.5] + list(range(-1, 17)) + [[], [0], [3, 1], [1, 1], [0, 14], [15], [-1], (2, 0), [0, 'a']]
+        for attr, lo, hi in (('neighbors', 0, 14), ('heteroatoms', 0, 14), ('implicit_hydrogens', 0, 14), ('hybridization', 1, 4)):
+            for v in values:
+                exp = spec_validate(v, lo, hi)
+                if exp is None:
+                    continue
+                q = QueryElement.from_symbol('C')()
+                got = outcome(lambda: (setattr(q, attr, v), getattr(q, attr))[1])
+                got2 = outcome(lambda: getattr(QueryElement.from_symbol('C')(**{attr: v}), attr))
+                t_oblig(run, f'query.{attr}={v!r} -> {exp}', got == exp == got2, key=f'query-setter:{attr}:{v!r}',
+                        what=f'QueryElement {attr} set to {v!r}: setter gives {got}, constructor gives {got2}, documented {exp}',
+                        witness={'attribute': attr, 'value': repr(v), 'setter': repr(got), 'constructor': repr(got2), 'expected': repr(exp)})
+        for v in [None, 0, 3, 2, -1, 1, [3, 4], [4, 3], [3, 3], [2], [0], 70, [5, 66]]:
+            if v is None:
+                exp = ('ok', ())
+            elif isinstance(v, int):
+                exp = ('ok', (v,)) if v == 0 or v >= 3 else ('exc', 'ValueError')
+            else:
+                exp = ('exc', 'ValueError') if any(x < 3 for x in v) or len(set(v)) != len(v) else ('ok', tuple(sorted(v)))
+            got = outcome(lambda: AnyElement(ring_sizes=v).ring_sizes)
+            t_oblig(run, f'query.ring_sizes={v!r} -> {exp}', got == exp, key=f'query-setter:ring_sizes:{v!r}',
+                    what=f'ring_sizes set to {v!r} gives {got}, documented {exp}')
     if want(run, 'P'):
         run_cases(run, 'contracts.query')
         pass
